@@ -613,6 +613,98 @@ def _judge_values(M, name, stp, res_models, k0, call, twice, col, evals):
                         pass
 
 
+def plain_call(M, name, ints):
+    """table function `name` on M with arguments from ints, no judging -> first returned model other than M, or None"""
+    try:
+        with quiet():
+            entry, kwargs = api_table.build(name, M, ints, SCRATCH)
+    except HarnessError:
+        raise
+    except Exception as e:
+        if innermost_pharmpy_frame(e) == 'outside-pharmpy':
+            raise
+        return None, ''
+    if entry.domain is not None and entry.domain(M):
+        return None, ''
+    fn = entry.resolve()
+    try:
+        reseed()
+        with quiet(), watchdog(name):
+            r = fn(M, **kwargs)
+            if entry.consume:
+                r = list(itertools.islice(iter(r), entry.consume))
+    except Exception:
+        return None, _short(kwargs)
+    ms = [x for x in models_in(r) if x is not M]
+    return (ms[0] if ms else None), _short(kwargs)
+
+
+HASHED_COMPONENTS = ('parameters', 'random_variables', 'statements', 'execution_steps', 'datainfo', 'dependent_variables', 'observation_transformation')
+
+
+def commuting_histories(M, n1, i1, n2, i2, col: Collector, evals):
+    """A = f2(f1(M)), B = f1(f2(M)) with the same argument integers.  Whenever A == B (or a component of A equals the
+    same component of B: parameters, random variables, statements, the ODE system, single statements, ...) the hashes
+    must agree: equal values reached through different histories differ in construction order, which == ignores.
+    -> (A == B or None, [names of equal components]) or None when one of the histories does not produce a model"""
+    if n1 == n2:
+        return None
+    a1, kw1 = plain_call(M, n1, i1)
+    if a1 is None:
+        return None
+    A, kw2 = plain_call(a1, n2, i2)
+    b1, kw2b = plain_call(M, n2, i2)
+    evals[0] += 3
+    if A is None or b1 is None:
+        return None
+    B, kw1b = plain_call(b1, n1, i1)
+    evals[0] += 1
+    if B is None:
+        return None
+    label = f'{n2}({kw2}) after {n1}({kw1})  versus  {n1}({kw1b}) after {n2}({kw2b})'
+    eq = check_pair(A, B, col, 'commuting histories: ' + label)
+    equal_components = []
+
+    def comp_pair(x, y, what):
+        try:
+            with quiet():
+                e = x == y
+        except Exception as ex:
+            col.add(f'eq-raises:{type(ex).__name__}@{innermost_pharmpy_frame(ex)}', detail=f'{what}: {label}')
+            return
+        if e is True:
+            equal_components.append(what.split('[')[0])
+            try:
+                hx, hy = hash(x), hash(y)
+            except Exception as ex:
+                col.add(f'eq-hash:component:{what.split("[")[0]}:hash-raises:{type(ex).__name__}', detail=label)
+                return
+            if hx != hy:
+                col.add(f'eq-hash:component:{what.split("[")[0]}', observed='x == y and hash(x) != hash(y)', detail=f'{what} of the results of commuting histories: {label}')
+
+    for c in HASHED_COMPONENTS:
+        comp_pair(getattr(A, c), getattr(B, c), c)
+    oa, ob = A.statements.ode_system, B.statements.ode_system
+    if oa is not None and ob is not None:
+        comp_pair(oa, ob, 'ode_system')
+        # compartments by name
+        for cn in oa.compartment_names:
+            ca, cb_ = oa.find_compartment(cn), ob.find_compartment(cn)
+            if ca is not None and cb_ is not None:
+                comp_pair(ca, cb_, f'compartment[{cn}]')
+    if len(A.statements) == len(B.statements):
+        for k, (sa, sb) in enumerate(zip(A.statements, B.statements)):
+            comp_pair(sa, sb, f'statement:{type(sa).__name__}[{k}]')
+    for pa in A.parameters:
+        if pa.name in B.parameters.names:
+            comp_pair(pa, B.parameters[pa.name], f'parameter[{pa.name}]')
+    for da, db in zip(A.random_variables, B.random_variables):
+        comp_pair(da, db, f'distribution[{",".join(da.names)}]')
+    for ca, cb_ in zip(A.datainfo, B.datainfo):
+        comp_pair(ca, cb_, f'columninfo[{ca.name}]')
+    return eq, sorted(set(equal_components))
+
+
 def _short(x, n=160):
     s = repr(x) if not isinstance(x, str) else x
     s = ' '.join(s.split())
@@ -692,6 +784,17 @@ def _run(spec, mode):
             break
         if stp.results:
             M = stp.results[0]
+    if mode == 'eqhash' and len(steps) >= 2:
+        n1, n2 = _fn_of(steps[0][0], tnames), _fn_of(steps[1][0], tnames if len(steps) > 2 else names)
+        i1 = steps[0][1] if isinstance(steps[0][1], list) else []
+        i2 = steps[1][1] if isinstance(steps[1][1], list) else []
+        res = commuting_histories(fresh(start), n1, i1, n2, i2, col, evals)
+        if res is not None:
+            classes.append('pair:commuted:' + {True: 'equal', False: 'unequal', None: 'failed'}[res[0]])
+            for comp in res[1]:
+                classes.append(f'commuted-component-equal:{comp}')
+            if res[0] or res[1]:
+                nontrivial = True
     if os.path.isdir(SCRATCH):  # files written by write_model / write_csv / write_files / context round trip
         shutil.rmtree(SCRATCH, ignore_errors=True)
     col.finish()
@@ -743,6 +846,35 @@ def enumerate_eq(tier):
         for ti, n in enumerate(names):
             fi = allnames.index(n)
             yield dict(m=(ti * 3 + j * 5) % nstart, steps=[[fi, _lcg(fi * 1000 + j + 77, 8)]], twice=True)
+    # commuting histories: pairs of transformations that act on different parts of a model, in both orders
+    starts = [s for s in COMMUTE_STARTS if s in start_names()]
+    k = 0
+    for a in range(len(COMMUTING)):
+        for b in range(a + 1, len(COMMUTING)):
+            if COMMUTING[a] not in api_table.TABLE or COMMUTING[b] not in api_table.TABLE:
+                continue
+            k += 1
+            # quick: every pair of structural transformations and a fixed spread of the others, thorough: all pairs
+            if tier == 'quick' and not (b < N_STRUCTURAL or k % 13 == 0):
+                continue
+            for r in range(1 if tier == 'quick' else len(starts)):
+                st = starts[(k + r) % len(starts)]
+                yield dict(m=st, steps=[[COMMUTING[a], _lcg(k * 31 + r, 8)], [COMMUTING[b], _lcg(k * 17 + r + 5, 8)]], twice=False)
+
+
+COMMUTE_STARTS = ('pheno', 'basic_oral', 'mox2', 'pheno_block', 'basic_iv', 'pheno_real', 'mox_2comp')
+N_STRUCTURAL = 10
+COMMUTING = (
+    # structural (ODE system built in a different order)
+    'add_peripheral_compartment', 'set_first_order_absorption', 'set_zero_order_absorption', 'add_lag_time', 'set_transit_compartments',
+    'set_michaelis_menten_elimination', 'add_bioavailability', 'set_zero_order_input', 'set_initial_condition', 'add_effect_compartment',
+    # parameters / random effects / error model / steps / data
+    'fix_parameters', 'set_initial_estimates', 'set_upper_bounds', 'add_population_parameter', 'add_individual_parameter',
+    'add_iiv', 'remove_iiv', 'create_joint_distribution', 'transform_etas_boxcox', 'add_covariate_effect', 'add_allometry',
+    'set_proportional_error_model', 'set_combined_error_model', 'set_iiv_on_ruv',
+    'add_estimation_step', 'set_evaluation_step', 'add_predictions', 'set_ode_solver', 'add_parameter_uncertainty_step',
+    'drop_columns', 'set_covariates', 'add_time_after_dose', 'set_reference_values', 'filter_dataset', 'set_name', 'set_description',
+)
 
 
 SUBCHECKS = [
